@@ -284,6 +284,21 @@ def factory_table(sp, rng):
     yield 'proximal_box_constraint(lower-only)', P.proximal_box_constraint(sp, lower=-0.3), S.IndicatorBox(sp, -0.3, None), False, ('indicator',)
     yield 'proximal_box_constraint(upper-only)', P.proximal_box_constraint(sp, upper=0.5), S.IndicatorBox(sp, None, 0.5), False, ('indicator',)
     yield 'proximal_huber', P.proximal_huber(sp, 0.3), S.Huber(sp, 0.3), False, ('c1',)
+    # calculus rule that no Functional class reaches: prox of F o L for L L^* = mu Id, with mu != 1 and non-linear proximals
+    for bname, base, btags in (('L1Norm', lambda: S.L1Norm(sp), ()), ('L2Norm', lambda: S.L2Norm(sp), ()), ('Huber', lambda: S.Huber(sp, 0.3), ('c1',)),
+                               ('IndicatorBox', lambda: S.IndicatorBox(sp, -0.5, 0.8), ('indicator',))):
+        for c in (2.0, -0.5, 1.0):
+            L = odl.ScalingOperator(sp, c)
+            yield 'proximal_composition(%s,scaling=%g)' % (bname, c), P.proximal_composition(base().proximal, L, c * c), base() * L, False, btags
+    if type(sp).__name__ == 'NumpyTensorSpace' and sp.ndim == 1 and 4 <= sp.size <= 10 and util.weighting_tag(sp) == 'none':
+        m = sp.size // 2
+        Q = np.linalg.qr(rng.normal(size=(sp.size, m)))[0].T      # orthonormal rows
+        for c in (1.0, 1.7):
+            ran = odl.rn(m)
+            L = odl.MatrixOperator(c * Q, sp, ran)
+            yield 'proximal_composition(L1Norm,semi-orthogonal,c=%g)' % c, P.proximal_composition(S.L1Norm(ran).proximal, L, c * c), S.L1Norm(ran) * L, False, ()
+            yield 'proximal_composition(IndicatorL2Ball,semi-orthogonal,c=%g)' % c, P.proximal_composition(S.IndicatorLpUnitBall(ran, 2).proximal, L, c * c), \
+                S.IndicatorLpUnitBall(ran, 2) * L, False, ('indicator',)
 
 
 def _guarded_table(ctx, sp, rng):
